@@ -772,6 +772,9 @@ def participation_coef(W, ci, degree='undirected'):
     P : Nx1 np.ndarray
         participation coefficient
     '''
+    # work in floating point: boolean input cannot be negated or squared, and the
+    # squared strengths of integer input overflow for large weights
+    W = np.asarray(W, dtype=float)
     if degree == 'in':
         W = W.T
 
@@ -852,6 +855,9 @@ def participation_coef_sign(W, ci):
     Pneg : Nx1 np.ndarray
         participation coefficient from negative weights
     '''
+    # work in floating point: boolean input cannot be negated or squared, and the
+    # squared strengths of integer input overflow for large weights
+    W = np.asarray(W, dtype=float)
     _, ci = np.unique(ci, return_inverse=True)
     ci += 1
 
